@@ -745,6 +745,25 @@ static const Fixed CORPUS[] = {
   { "R{\xCE\xBE:=\xE2\x88\x85 | {\xCE\xBE}}", "K10:recursion-unstable", true }, { "R{\xCE\xBE:=\xE2\x88\x85 | \xE2\x84\xAC(\xCE\xBE)}", "K10:recursion-unstable", true },
   { "R{\xCE\xBE:=\xE2\x88\x85 | \xCE\xBE\xE2\x88\xAA{\xCE\xBE}}", "K10:recursion-unstable", true }, { "R{\xCE\xBE:=\xE2\x88\x85 | 1=1 | {\xCE\xBE}}", "K10:recursion-unstable", true },
   { "R{\xCE\xBE:=\xE2\x88\x85 | \xCE\xBE\xE2\x88\xAA{X1}}", "fixed", false }, { "R{\xCE\xBE:=\xE2\x88\x85 | \xCE\xBE\xE2\x88\xAA{{X1}}}", "fixed", false },
+  // the variable of a recursion is typed by the join of the initial value and the step, also while the condition and the
+  // step are analysed (K11, repaired in /repo 374179a: R{a:=X1 | ∀x∈a pr1(x)=x | ∅} was accepted with ℬ(X1) and crashed in evaluation)
+  { "R{a:=X1 | \xE2\x88\x80x\xE2\x88\x88" "a pr1(x)=x | \xE2\x88\x85}", "K11:recursion-var-type", true },
+  { "R{a:=X1 | 1=2 | \xE2\x88\x85}", "fixed", false },
+  { "R{a:=X1 | \xE2\x88\x80x\xE2\x88\x88" "a pr1(x)=x | a}", "fixed", false },
+  { "R{a:=X1 | D{x\xE2\x88\x88" "a | pr1(x)=x}\xE2\x88\xA9\xE2\x88\x85}", "fixed", false },
+  { "R{a:=X1 | \xE2\x88\x83x\xE2\x88\x88" "a card(x)=0 | \xE2\x88\x85}", "K11:recursion-var-type", true },
+  { "R{a:=X1 | \xE2\x88\x80x\xE2\x88\x88" "a \xE2\x88\x80y\xE2\x88\x88x y=y | D8}", "K11:recursion-var-type", true },
+  { "R{a:=S1 | \xE2\x88\x80x\xE2\x88\x88" "a pr3(x)=x | \xE2\x88\x85}", "K11:recursion-var-type", true },
+  { "R{a:=S1 | \xE2\x88\x80x\xE2\x88\x88" "a pr1(x)=pr2(x) | \xE2\x88\x85}", "fixed", false },
+  { "R{a:=X1 | red(a)=a | \xE2\x88\x85}", "K11:recursion-var-type", true },
+  { "R{a:=1 | pr1(a)=a | debool(\xE2\x88\x85)}", "fixed", false }, { "R{a:=1 | pr1(a)=a | debool(D8)}", "K11:recursion-var-type", true },
+  { "R{(a,b):=(X1,X2) | \xE2\x88\x80x\xE2\x88\x88" "b pr1(x)=x | (a, \xE2\x88\x85)}", "K11:recursion-var-type", true },
+  { "R{a:=X1 | \xE2\x88\x80x\xE2\x88\x88" "a pr1(x)=x | R{b:=\xE2\x88\x85 | b}}", "K11:recursion-var-type", true },
+  { "R{a:=\xE2\x88\x85 | \xE2\x88\x80x\xE2\x88\x88" "a pr1(x)=x | \xE2\x88\x85}", "fixed", false },
+  { "R{a:=\xE2\x88\x85 | \xE2\x88\x80x\xE2\x88\x88" "a pr1(x)=x | a\xE2\x88\xAAX1}", "fixed", false },
+  { "R{a:=\xE2\x88\x85 | D{x\xE2\x88\x88" "a | pr1(x)=x}\xE2\x88\xAAX1}", "fixed", false },
+  { "R{a:=\xE2\x88\x85 | D{x\xE2\x88\x88" "a | pr1(x)=x}\xE2\x88\xAAS1}", "fixed", false },
+  { "R{a:={\xE2\x88\x85} | a\xE2\x88\xAA{X1}}", "fixed", false }, { "R{a:={1} | a\xE2\x88\xAA" "C1}", "fixed", false }, { "R{a:=C1 | a\xE2\x88\xAA{1}}", "fixed", false },
   // template parameters that meet only the any-type (found through seeded change C03-1)
   { "F6[\xE2\x88\x85, \xE2\x88\x85]", "K8:template-any", true }, { "F6[\xE2\x88\x85, \xE2\x88\x85]\xE2\x88\xAAX1", "K8:template-any", true }, { "F6[\xE2\x88\x85, X1]", "fixed", false }, { "F6[X1, \xE2\x88\x85]", "fixed", false },
   { "F6[F6[\xE2\x88\x85, \xE2\x88\x85], X1]", "K8:template-any", true }, { "D7:==F6[\xE2\x88\x85, \xE2\x88\x85]", "K8:template-any", true }, { "F6[\xE2\x88\x85, \xE2\x88\x85]=X1", "K8:template-any", true },
@@ -780,6 +799,70 @@ static std::string scopeStress(vh::Rng& rng, int depth) {
   }
 }
 
+// recursion whose initial value is typed while the step is any-typed (∅-like), with the condition / the step / the
+// user of the result using the variable (or its elements) structurally — as a tuple, a set of sets, a number. The variable
+// holds the initial value, so it must be analysed with the join of both types (class of the defect K11); the inputs
+// mix uses that fit the initial value with uses that do not
+static std::string recAnyStep(vh::Rng& rng) {
+  static const std::vector<std::string> inits = { "X1", "X2", "S1", "Z", "C1", "\xE2\x84\xAC(X1)", "X1\xC3\x97X2", "{X1}", "{1}", "{(1,X1)}",
+    "\xE2\x88\x85", "D8", "{\xE2\x88\x85}", "1", "(1,2)", "(X1,\xE2\x88\x85)", "debool(X1)" };
+  static const std::vector<std::string> anySteps = { "\xE2\x88\x85", "\xE2\x88\x85", "D8", "D{y\xE2\x88\x88\xE2\x88\x85 | 1=1}", "R{b:=\xE2\x88\x85 | b}",
+    "debool(D8)", "{\xE2\x88\x85}", "D8\xE2\x88\xAA" "D8", "red({\xE2\x88\x85})", "Pr1(D8)", "(\xE2\x88\x85,\xE2\x88\x85)" };
+  auto use = [&](const std::string& x) -> std::string {   // a statement using x structurally
+    switch (rng.range(0, 13)) {
+    default:
+    case 0: return "pr1(" + x + ")=" + x;
+    case 1: return "pr2(" + x + ")=pr1(" + x + ")";
+    case 2: return "pr3(" + x + ")\xE2\x88\x88X1";
+    case 3: return "card(" + x + ")=0";
+    case 4: return "\xE2\x88\x80y\xE2\x88\x88" + x + " y=y";
+    case 5: return "\xE2\x88\x83y\xE2\x88\x88" + x + " pr1(y)=y";
+    case 6: return x + "+1=1";
+    case 7: return x + "<1";
+    case 8: return "red(" + x + ")=" + x;
+    case 9: return "Pr1(" + x + ")=Pr2(" + x + ")";
+    case 10: return x + "\xE2\x88\x88X1";
+    case 11: return x + "\xE2\x8A\x86X1";
+    case 12: return "debool(" + x + ")=1";
+    case 13: return "\xE2\x88\x80(y,z)\xE2\x88\x88" + x + " y=z";
+    }
+  };
+  auto cond = [&](const std::string& v) -> std::string {
+    switch (rng.range(0, 5)) {
+    default:
+    case 0: case 1: return "\xE2\x88\x80x\xE2\x88\x88" + v + " " + use("x");
+    case 2: return "\xE2\x88\x83x\xE2\x88\x88" + v + " " + use("x");
+    case 3: case 4: return use(v);
+    case 5: return "1=2";
+    }
+  };
+  auto step = [&](const std::string& v, bool allowVar) -> std::string {
+    const int r = rng.range(0, 9);
+    if (r < 6 || !allowVar) return rng.pick(anySteps);
+    if (r == 6) return v;
+    if (r == 7) return "D{x\xE2\x88\x88" + v + " | " + use("x") + "}";
+    if (r == 8) return "D{x\xE2\x88\x88" + v + " | " + use("x") + "}\\" + v;
+    return v + "\xE2\x88\xAAX1";
+  };
+  std::string r;
+  if (rng.chance(1, 6)) {   // tuple declaration: one component keeps its type, the other gets an any-typed step
+    const auto i1 = rng.pick(inits), i2 = rng.pick(inits);
+    const std::string v = rng.chance(1, 2) ? "a" : "b";
+    const auto s1 = rng.chance(1, 2) ? std::string("a") : step("a", false), s2 = rng.chance(1, 2) ? std::string("b") : step("b", false);
+    r = "R{(a,b):=(" + i1 + "," + i2 + ") | " + (rng.chance(2, 3) ? cond(v) + " | " : std::string()) + "(" + s1 + ", " + s2 + ")}";
+  } else {
+    const auto init = rng.pick(inits);
+    if (rng.chance(3, 4)) r = "R{a:=" + init + " | " + cond("a") + " | " + step("a", rng.chance(1, 3)) + "}";
+    else r = "R{a:=" + init + " | " + step("a", true) + "}";
+  }
+  switch (rng.range(0, 7)) {   // user of the result
+  case 0: return "\xE2\x88\x80z\xE2\x88\x88" + r + " " + use("z");
+  case 1: return r + "\xE2\x88\xAAX1";
+  case 2: return use(r);
+  default: return r;
+  }
+}
+
 int main() {
   vh::Rng rng(vh::seedFromEnv());
   const bool deep = vh::thorough();
@@ -796,6 +879,7 @@ int main() {
       runCase(cv, f.text, Syntax::MATH, f.cls);
     }
     for (int i = 0; i < (deep ? 120 : 60); ++i) runCase(cv, scopeStress(rng, rng.range(2, 5)), Syntax::MATH, "gen:scope-stress");
+    for (int i = 0; i < (deep ? 160 : 70); ++i) runCase(cv, recAnyStep(rng), Syntax::MATH, "gen:rec-any-step");
     for (int i = 0; i < perCtx; ++i) {
       Gen g(rng, cv);
       const int kind = rng.range(0, 9);
